@@ -25,7 +25,13 @@ func GenSplitScenario(r *Rand, prop string) *Scenario {
 	if rs.Chance(1, 3) {
 		argv = append(argv, "ea")
 	}
-	argv = append(argv, "-s=.id")
+	splitExp := "-s=.id"
+	if prop == "C19" && rs.Chance(1, 4) {
+		// a split expression that fails for a result: nothing may be written under another name, the run must fail
+		splitExp = Pick(rs, []string{"-s=.id | upcase | error(\"no name\")", "-s=error(\"boom\")", "-s=.id - 1", "-s=load(\"missing.yaml\")", "-s=(.id | select(. == \"nope\")) // error(\"no name\")"})
+		sc.Meta["split_must_fail"] = true
+	}
+	argv = append(argv, splitExp)
 	if rs.Chance(1, 4) {
 		argv = append(argv, "-o=json")
 	}
@@ -43,7 +49,22 @@ func GenSplitScenario(r *Rand, prop string) *Scenario {
 	sc.Meta["expr_raw"] = expr
 	sc.Meta["format"] = "yaml"
 	sc.Meta["family"] = "split-output"
-	sc.Meta["keep_flags"] = []any{"-s=.id"}
+	sc.Meta["keep_flags"] = []any{splitExp}
+	if splitExp == "-s=.id" && rs.Chance(1, 4) {
+		// an earlier run left a longer file under the name of one of the outputs
+		lay := LayoutOf(sc.Files, "yaml")
+		if len(lay) > 0 {
+			d := lay[rs.Intn(len(lay))]
+			ext := ".yml"
+			if containsArg(argv, "-o=json") {
+				ext = ".json"
+			}
+			if d.ID != "" {
+				sc.Files = append(sc.Files, File{Name: d.ID + ext, Data: Bytes(strings.Repeat("stale line left by an earlier run\n", rs.Range(40, 400))), Mode: 0644})
+				sc.Meta["stale_output"] = d.ID + ext
+			}
+		}
+	}
 	sc.Meta["freeze_data"] = true
 	rf := r.Fork("sched")
 	if rf.Chance(1, 3) {
@@ -90,13 +111,29 @@ func JudgeSplit(c *Ctx, sc *Scenario) (problems [][2]string, nontrivial bool) {
 	if !seen || !containsPrefix(sc.Argv, "-s=") {
 		return nil, false // the shrinker took the scenario apart
 	}
+	if sc.MetaBool("split_must_fail") {
+		var ps [][2]string
+		if out.Exit == 0 {
+			var made []string
+			for name := range out.Files {
+				if sc.File(name) == nil {
+					made = append(made, name)
+				}
+			}
+			sort.Strings(made)
+			ps = append(ps, [2]string{"exit=0 split-expression-fails", fmt.Sprintf("the split expression fails for every result, yet yq exited 0 (files written: %v)", made)})
+		} else if len(bytes.TrimSpace(out.Stderr)) == 0 {
+			ps = append(ps, [2]string{"silent split-expression-fails", fmt.Sprintf("exit %d but nothing on stderr", out.Exit)})
+		}
+		return ps, true
+	}
 	var files []File
 	for _, n := range names {
 		if f := sc.File(n); f != nil {
 			files = append(files, *f)
 		}
 	}
-	layout := LayoutOf(files, "yaml")
+	layout := LayoutOf(files, "yaml") // (a stale output file is not an argument, so it is not in names)
 	if len(layout) == 0 {
 		return nil, false
 	}
